@@ -77,11 +77,8 @@ def dropPrefix? : Str → Str → Option Str
 def partitionCS : Str → Str × Option Str
   | [] => ([], none)
   | c :: rest =>
-    if c = ':' then
-      match rest with
-      | ' ' :: rest' => ([], some rest')
-      | _ => let r := partitionCS rest; (c :: r.1, r.2)
-    else let r := partitionCS rest; (c :: r.1, r.2)
+    if c = ':' ∧ rest.head? = some ' ' then ([], some rest.tail)
+    else (c :: (partitionCS rest).1, (partitionCS rest).2)
 
 /-! ## literals of the source (cross-checked against Generated in Props) -/
 
@@ -159,7 +156,7 @@ def frameLine (f : Frame) : Str := ind2 ++ litA ++ f.file ++ litB ++ f.lineno ++
 def frameLines (f : Frame) : List Str :=
   if f.src = [] then [frameLine f] else [frameLine f, ind4 ++ f.src]
 
-def excLine (etype msg : Str) : Str := if msg = [] then etype else etype ++ colonSp ++ msg
+def excLine (etype msg : Str) : Str := if msg = [] then etype else etype ++ (colonSp ++ msg)
 
 /-- the list `lines` built by to_string -/
 def toLines (pe : PE) : List Str :=
@@ -230,8 +227,7 @@ deriving DecidableEq, Repr
 
 /-- `exc_type, _, exc_msg = '\n'.join(tb_lines[line_no:]).partition(': ')` -/
 def excParts (ls : List Str) : Str × Str :=
-  let p := partitionCS (joinNL ls)
-  (p.1, p.2.getD [])
+  ((partitionCS (joinNL ls)).1, (partitionCS (joinNL ls)).2.getD [])
 
 /-- which of the two text forms from_string recognised -/
 inductive Form | tb | se
@@ -347,7 +343,7 @@ def headerNL : Str := header ++ ['\n']
 def tbInfoFormat (frames : List Callpoint) : Str := headerNL ++ frames.flatMap tbFrameStr
 
 /-- ExceptionInfo.get_formatted_exception_only (after the empty-message fix) -/
-def eiExcOnly (etype msg : Str) : Str := if msg = [] then etype else etype ++ colonSp ++ msg
+def eiExcOnly (etype msg : Str) : Str := if msg = [] then etype else etype ++ (colonSp ++ msg)
 
 /-- ExceptionInfo.get_formatted -/
 def eiFormat (frames : List Callpoint) (etype msg : Str) : Str :=
@@ -356,7 +352,7 @@ def eiFormat (frames : List Callpoint) (etype msg : Str) : Str :=
 /-- tbutils.print_exception for a non-SyntaxError exception: `str(TracebackInfo)` followed by
     tbutils.format_exception_only = `_format_final_exc_line` -/
 def printException (frames : List Callpoint) (etype msg : Str) : Str :=
-  tbInfoFormat frames ++ (if msg = [] then etype ++ ['\n'] else etype ++ colonSp ++ msg ++ ['\n'])
+  tbInfoFormat frames ++ (if msg = [] then etype ++ ['\n'] else etype ++ (colonSp ++ msg) ++ ['\n'])
 
 /-! the standard `traceback` module (CPython 3.12 StackSummary.format without anchors /
     TracebackException.format_exception_only), as the specification -/
@@ -381,9 +377,19 @@ def stdLoop : Option Callpoint → Nat → List Callpoint → Str
     else if count + 1 > 3 then stdLoop last (count + 1) fs
     else stdFrameStr f ++ stdLoop last (count + 1) fs
 
+/-- no run of more than 3 consecutive entries with the same file, line and function
+    (same bookkeeping as `stdLoop`) -/
+def noLongRunFrom : Option Callpoint → Nat → List Callpoint → Bool
+  | _, _, [] => true
+  | last, count, f :: fs =>
+    if (match last with | none => true | some l => !sameSite l f) then noLongRunFrom (some f) 1 fs
+    else count + 1 ≤ 3 && noLongRunFrom last (count + 1) fs
+
+def NoLongRun (frames : List Callpoint) : Bool := noLongRunFrom none 0 frames
+
 /-- `_format_final_exc_line` -/
 def stdExcOnly (etype msg : Str) : Str :=
-  if msg = [] then etype ++ ['\n'] else etype ++ colonSp ++ msg ++ ['\n']
+  if msg = [] then etype ++ ['\n'] else etype ++ (colonSp ++ msg) ++ ['\n']
 
 /-- `''.join(traceback.format_exception(e))` for an exception without cause/context/notes, anchors aside -/
 def stdFormat (frames : List Callpoint) (etype msg : Str) : Str :=
